@@ -13,3 +13,8 @@ chk("C05", "exploration",
     "a run counts as completed iff it wrote --json; the JSON reporter lists every report (no filtering) before the status is decided",
     "runtime monitor: process exit status vs the process's own JSON report; relational check across display flags",
     "DESIGN.md §3 C05")
+chk("C18", "exploration",
+    "load-vs-use monitor: every generated configuration accepted by `pint config` is applied (offline, and online against a closed port when it has prometheus blocks) to rule files full of regexp/template metacharacters; any panic, fatal error or hang (150 s re-run) of the lint child is a violation. Sampled over the documented option space with valid/boundary/invalid/templated value classes.",
+    "crash classifier on child stderr/exit; acceptance = exit status of `pint config`",
+    "runtime crash/hang monitor over child processes (load verdict vs later lint)",
+    "DESIGN.md §3 C18")
